@@ -13,11 +13,39 @@ pub fn run(c: &Case, tmp: &std::path::Path) -> Vec<String> {
     let mut main = dir.join("c.jbk");
     let pkg = c.p("pkg");
     let extra = c.pu("extra") as usize;
-    if let Err(e) = std_container(main.to_str().unwrap(), pkg, c.p("comp"), c.pu("n") as u32, extra as u32, c.pu("seed")) {
-        out.push(format!("{} create CREATE_FAIL {}", id, e.replace(' ', "_")));
-        return out;
-    }
+    let _st = match std_container(main.to_str().unwrap(), pkg, c.p("comp"), c.pu("n") as u32, extra as u32, c.pu("seed")) {
+        Ok(s) => s,
+        Err(e) => {
+            out.push(format!("{} create CREATE_FAIL {}", id, e.replace(' ', "_")));
+            return out;
+        }
+    };
     out.push(format!("{} create OK", id));
+    for (p, i, data) in &_st.contents {
+        out.push(format!("{} @oracle content {}:{} {}", id, p, i, show(data)));
+    }
+    // pack uuids by pack id, from the manifest
+    if let Ok(cp) = jubako::tools::open_pack(&main) {
+        if let Ok(Some(r)) = cp.get_manifest_pack_reader() {
+            if let Ok(m) = jubako::reader::ManifestPack::new(r) {
+                out.push(format!("{} @oracle uuid 0 {}", id, hex(m.get_directory_pack_info().uuid.as_bytes())));
+                for pi in m.get_pack_infos() {
+                    out.push(format!("{} @oracle uuid {} {}", id, pi.pack_id.into_u16(), hex(pi.uuid.as_bytes())));
+                }
+            }
+        }
+    }
+    // baseline snapshot and dump
+    let base = tmp.join(format!("pk_{}_base", id));
+    let _ = std::fs::remove_dir_all(&base);
+    std::fs::create_dir_all(&base).unwrap();
+    for e in std::fs::read_dir(&dir).unwrap() {
+        let e = e.unwrap();
+        if e.path().is_file() {
+            std::fs::copy(e.path(), base.join(e.file_name())).unwrap();
+        }
+    }
+    emit_state(&mut out, id, "base", &base.join("c.jbk"), &base);
     // file holding pack #k: 0 = directory, 1 = main content pack, 2.. = extra packs
     let file_of = |k: usize| -> std::path::PathBuf {
         match (k, pkg) {
@@ -67,15 +95,19 @@ pub fn run(c: &Case, tmp: &std::path::Path) -> Vec<String> {
             _ => {}
         }
     }
-    out.push(format!("{} @model main {}", id, main.display()));
-    for e in std::fs::read_dir(&dir).unwrap() {
+    emit_state(&mut out, id, "final", &main, &dir);
+    out
+}
+
+fn emit_state(out: &mut Vec<String>, id: &str, tag: &str, main: &std::path::Path, dir: &std::path::Path) {
+    out.push(format!("{} @model {} main {}", id, tag, main.display()));
+    for e in std::fs::read_dir(dir).unwrap() {
         let e = e.unwrap();
         if e.path().is_file() && e.path() != main {
-            out.push(format!("{} @model sibling {} {}", id, e.file_name().to_str().unwrap(), e.path().display()));
+            out.push(format!("{} @model {} sibling {} {}", id, tag, e.file_name().to_str().unwrap(), e.path().display()));
         }
     }
-    for l in dump_container(&main, &["idx"], true) {
-        out.push(format!("{} {}", id, l));
+    for l in dump_container(main, &["idx"], true) {
+        out.push(format!("{} {} {}", id, tag, l));
     }
-    out
 }
